@@ -83,7 +83,13 @@ func (cm *MemChatManager) Members(id ChatID) []*ClientConn {
 	chat := cm.chats[id]
 
 	var members []*ClientConn
-	for _, cc := range chat.ClientConn {
+	for id, cc := range chat.ClientConn {
+		// A member whose connection is gone (it disconnected without leaving the chat) is dropped: its user ID may
+		// have been handed to another user since, who must not receive this chat's traffic.
+		if cc.Server != nil && cc.Server.ClientMgr != nil && cc.Server.ClientMgr.Get(cc.ID) != cc {
+			delete(chat.ClientConn, id)
+			continue
+		}
 		members = append(members, cc)
 	}
 
